@@ -155,7 +155,17 @@ class Requests(Part):
             problem.predict = predict_hook
         problem.surrogate = sur
         vpool = [[round(rng.uniform(-5, 5), 3), round(rng.uniform(-5, 5), 3)] for _ in range(rng.choice([1, 2, 3, 50]))]
-        trace = [{"ev": "config", "ts": ts, "mode": mode, "trained": bool(trained0)}]
+        pre = 0
+        if fl != "eval" and case["cseed"] % 4 == 0:
+            # warm start: the training set is preloaded from designs the problem already holds (a previous run read from a data store);
+            # that is not a request, so no counter moves
+            pre = rng.randint(1, 7)
+            for _ in range(pre):
+                old = Individual([round(rng.uniform(-5, 5), 3), round(rng.uniform(-5, 5), 3)])
+                old.costs = [float(sum(old.vector)) * 1.5 + 0.25, float(old.vector[0]) - 7.0]
+                problem.individuals.append(old)
+            observe(sur.read_from_data_store)
+        trace = [{"ev": "config", "ts": ts, "mode": mode, "trained": bool(trained0), "pre": pre if len(sur.x_data) == pre else len(sur.x_data)}]
         for i, acc in enumerate(accepts):
             state["i"] = i
             state["last_true"] = state["last_pred"] = None
